@@ -185,3 +185,67 @@ func VerifC06Corrupt() {
 	}
 	zz.Reach("end")
 }
+
+// c06UnmarshalForms stands in for msgpack.Unmarshal for the run `formats`: like the real
+// decoder it accepts an array of maps under every array header form (fixarray, array16,
+// array32) for the row target and rejects it for the map target.
+func c06UnmarshalForms(data []byte, v interface{}) error {
+	body := -1
+	switch {
+	case len(data) >= 1 && data[0] == 0x91:
+		body = 1
+	case len(data) >= 3 && data[0] == 0xdc && data[1] == 0 && data[2] == 1:
+		body = 3
+	case len(data) >= 5 && data[0] == 0xdd && data[1] == 0 && data[2] == 0 && data[3] == 0 && data[4] == 1:
+		body = 5
+	}
+	switch p := v.(type) {
+	case *[]map[string]interface{}:
+		if body > 0 && len(data) == body+4 && data[body] == 0x81 && data[body+1] == 0xa1 && data[body+2] == 'k' && data[body+3] < 0x80 {
+			*p = []map[string]interface{}{{"k": int8(data[body+3])}}
+			return nil
+		}
+		return errors.New("c06: not the row shape")
+	case *map[string]interface{}:
+		return errors.New("c06: array payload into a map")
+	}
+	return errors.New("c06: unsupported target")
+}
+
+// VerifC06Formats: a row-format entry is returned whatever array header form the encoder
+// chose for it (msgpack switches from fixarray to array16 at 16 rows and to array32 at
+// 65536 rows; the header form says nothing about the entry being intact).
+func VerifC06Formats() {
+	zz.ClockFixed(1700000000000000000)
+	zz.LargeAllocAs(255)
+	w := &Writer{entryChan: make(chan walEntry, 8)}
+	var data []byte
+	data = append(data, WALMagic...)
+	data = append(data, byte(WALVersion>>8), byte(WALVersion), WALChecksumCRC32)
+	b := zz.Byte("val")
+	zz.Assume(b < 0x80)
+	var payload []byte
+	switch zz.Choice("array_header_form", 3) {
+	case 0:
+		payload = []byte{0x91}
+	case 1:
+		payload = []byte{0xdc, 0, 1}
+	default:
+		payload = []byte{0xdd, 0, 0, 0, 1}
+	}
+	payload = append(payload, 0x81, 0xa1, 'k', b)
+	var err error
+	if zz.Bool("with_envelope") {
+		err = w.AppendRawWithMeta("db1", payload)
+	} else {
+		err = w.AppendRaw(payload)
+	}
+	zz.Assert(err == nil, "append failed")
+	e := <-w.entryChan
+	data = append(data, e.data...)
+	entries, rerr, r := c06Read(data)
+	zz.Assert(rerr == nil, "ReadAll failed on an intact file")
+	zz.Assert(len(entries) == 1 && c06Key(entries[0]) == int(b), "an intact row-format entry was not returned")
+	zz.Assert(r.CorruptedEntries == 0, "an intact entry was counted as corrupted")
+	zz.Reach("end")
+}
